@@ -7,7 +7,8 @@ import (
 
 // Env gives the reference evaluator access to the enclosing document (IN (SELECT ...)).
 type Env struct {
-	Doc map[string]any
+	Doc     map[string]any
+	Members []map[string]any // the rows an aggregate call ranges over (group members / filtered table)
 }
 
 // Unspec is returned (as the second result false) when SQL or the property leaves the answer open.
@@ -358,6 +359,11 @@ func Eval(e Expr, row map[string]any, env *Env) (v any, ok bool) {
 			return !b, true
 		}
 		return nil, false
+	case Agg:
+		if env == nil {
+			return nil, false
+		}
+		return EvalAgg(e, env.Members)
 	case Case:
 		for _, w := range e.Whens {
 			c, ok := Eval(w.Cond, row, env)
@@ -399,4 +405,70 @@ func Filter(rows []any, pred Expr, env *Env) ([]any, bool) {
 		}
 	}
 	return out, true
+}
+
+
+// EvalAgg computes an aggregate over the member rows.  SUM/MIN/MAX ignore NULL members and are NULL
+// when no non-NULL member exists; AVG and COUNT(col) are specified only for columns without NULLs.
+func EvalAgg(a Agg, members []map[string]any) (any, bool) {
+	if a.Col == "" {
+		if a.Fn != "COUNT" {
+			return nil, false
+		}
+		return float64(len(members)), true
+	}
+	var vals []float64
+	nulls := 0
+	for _, m := range members {
+		v := lookup(m, a.Col)
+		if v == nil {
+			nulls++
+			continue
+		}
+		f, ok := v.(float64)
+		if !ok {
+			return nil, false
+		}
+		vals = append(vals, f)
+	}
+	switch a.Fn {
+	case "COUNT":
+		if nulls > 0 {
+			return nil, false
+		}
+		return float64(len(vals)), true
+	case "SUM", "MIN", "MAX":
+		if len(vals) == 0 {
+			return nil, true
+		}
+		r := vals[0]
+		for _, f := range vals[1:] {
+			switch a.Fn {
+			case "SUM":
+				r += f
+			case "MIN":
+				if f < r {
+					r = f
+				}
+			case "MAX":
+				if f > r {
+					r = f
+				}
+			}
+		}
+		return r, true
+	case "AVG":
+		if nulls > 0 {
+			return nil, false
+		}
+		if len(vals) == 0 {
+			return nil, true
+		}
+		s := 0.0
+		for _, f := range vals {
+			s += f
+		}
+		return s / float64(len(vals)), true
+	}
+	return nil, false
 }
